@@ -203,6 +203,18 @@ class ShortReadStream:
         return None
 
 
+class NoSeekStream:  # pylint: disable=too-few-public-methods
+    """A caller stream that can only be read (a pipe, a socket, the library's own ZeroStream): no seek, no tell."""
+
+    mode = 'rb'
+
+    def __init__(self, data):
+        self._stream = io.BytesIO(data)
+
+    def read(self, size=-1):
+        return self._stream.read(size)
+
+
 class CallbackRecorder:
     def __init__(self):
         self.events = []
@@ -411,6 +423,8 @@ class World:  # pylint: disable=too-many-instance-attributes,too-many-public-met
             return ShortReadStream(data, seed)
         if via == 'file':
             return open(self.new_input_file(data), 'rb')  # pylint: disable=consider-using-with
+        if via == 'noseek':
+            return NoSeekStream(data)
         if via == 'offset':
             # a caller stream that is not positioned at its start (e.g. a header was consumed before handing it over)
             stream = io.BytesIO(self.offset_prefix(seed) + data)
@@ -497,6 +511,8 @@ class World:  # pylint: disable=too-many-instance-attributes,too-many-public-met
         recorder = CallbackRecorder() if op.get('callback') else None
         api = op.get('api', 'objects')
         via = op.get('via', 'bytesio')
+        if via == 'noseek' and kwargs['no_holes'] and kwargs['no_holes_read_twice']:
+            via = 'bytesio'  # the second pass documents that it rewinds the stream: needs a seekable one
         lazies = []
         if api == 'objects':
             got = handle.add_objects_to_pack(datas, callback=recorder, **kwargs)
@@ -702,6 +718,20 @@ class World:  # pylint: disable=too-many-instance-attributes,too-many-public-met
         if before != after:
             self.fail('reinit-changed-folder', 'folder bytes differ after refused init_container')
         return {}
+
+    def op_reinit_clear(self, side, op):
+        """init_container(clear=True) through an open handle: an empty container with the same configuration, and the
+        handle goes on being used (its cached configuration, pack id and sessions must not survive the wipe)."""
+        idx = op.get('h', 0) % len(side.handles)
+        side.handles[idx].init_container(clear=True, **side.config)
+        side.model = {}
+        side.planted = set()
+        for i, other in enumerate(side.handles):
+            if i != idx:  # the other clients are new processes after a wipe
+                other.close()
+                side.handles[i] = self.lib.Container(side.folder)
+        side.last_index_writer = None
+        return {'cleared': True}
 
     def op_plant_duplicate(self, side, op):
         key = self.model_key(side, op.get('key', 0))
